@@ -88,3 +88,13 @@ PROPS["C20"] = dict(
     level_text="Lock skeletons of every exported bloom.Filter method and write sets of every gcs.Filter method are re-extracted from the Go source (go/ast) on every run and proved well-bracketed / empty by kernel evaluation; a generic Lean theorem over all interleavings shows well-bracketed methods are data-race free and linearizable in lock order. Supporting validation: every run stresses one shared filter from up to 32 goroutines under the Go race detector and compares the final bit array with the order-independent sequential result.",
     level_note="Trusted: Lean kernel + standard axioms; the go/ast skeleton extractor (harness/facts.go); PARTIAL for the runtime: sync.Mutex, the scheduler and the Go memory model are assumed, a data race is a runtime event the model cannot exhibit; the race detector run is supporting evidence, not proof.",
     assumptions=COMMON_ASSUME)
+
+TIES = {
+    "C01": ["Addr", "Base58"], "C02": ["Addr", "Base58"], "C03": ["Addr", "Bech32"],
+    "C04": ["HD", "Base58"], "C05": ["HD", "Base58"], "C06": ["Base58", "Addr"], "C07": ["Base58", "Bech32"],
+    "C08": ["Limits"], "C09": ["Limits"], "C10": ["Limits"], "C11": ["Limits"], "C12": ["Limits"],
+    "C13": ["Gcs"], "C14": ["Gcs"], "C15": ["HD"], "C16": [], "C17": ["Amount"], "C18": [], "C19": [],
+    "C20": ["Locking", "Gcs"],
+}
+for _k, _v in TIES.items():
+    PROPS[_k]["ties"] = _v
